@@ -704,7 +704,7 @@ pub fn run_sequence_inner(spec: &Spec, reader: bool, seq: &[Op], parity_odd: boo
         oracle::begin_execution(parity_odd);
     }
     stats.execs += 1;
-    let res = oracle::subject(|| -> Result<Option<(bool, usize, Option<usize>)>, Fail> {
+    let res = oracle::subject(|| catch_unwind(AssertUnwindSafe(|| -> Result<Option<(bool, usize, Option<usize>)>, Fail> {
         let (t, mut m) = build(spec);
         let mut root = if reader { Root::Reader(t.reader()) } else { Root::Plain(t) };
         observe(&root, &m, stats)?;
@@ -727,7 +727,13 @@ pub fn run_sequence_inner(spec: &Spec, reader: bool, seq: &[Op], parity_odd: boo
         let lim = if let M::Take(_, l) = &m { Some(*l) } else { None };
         let is_take = matches!(root.tree(), Tree::Take(_));
         Ok(Some((is_take, m.len(), lim)))
-    });
+    })));
+    // a panic outside the guarded operations (an observer such as remaining/chunk/chunks_vectored,
+    // or building / dropping the tree) is a violation, not a harness failure
+    let res = match res {
+        Ok(r) => r,
+        Err(_) => Err(f9("unexpected-panic", "a non-consuming observation (remaining/chunk/chunks_vectored/get_ref) or construction/drop panicked".into())),
+    };
     // the list of enabled operations is harness data: build it outside the window
     let res = res.map(|o| match o {
         Some((is_take, rem, lim)) => ops_at(is_take, reader, rem, lim),
@@ -1035,7 +1041,13 @@ pub fn run(tier: &str, parity_odd: bool, shard: usize, nshards: usize, prop: &st
                         );
                         let mut sig = String::new();
                         spec_kind_sig(spec, &mut sig);
-                        rep.violate(f.property, &f.case, &format!("{} | tree {:?} reader={} after ops {:?}", f.msg, spec, reader, seq), &replay);
+                        let msg = format!("{} | tree {:?} reader={} after ops {:?}", f.msg, spec, reader, seq);
+                        rep.violate(f.property, &f.case, &msg, &replay);
+                        // a wrong result on a tree that contains an adapter means the adapter did not bound / order
+                        // as documented: that is a C12 violation as well as a C09 one
+                        if f.property == "C09" && (reader || sig.contains("T(") || sig.contains("C(")) {
+                            rep.violate("C12", &f.case, &msg, &replay);
+                        }
                     }
                 }
                 if seqs % 200_000 == 1 && rep.samples.len() < 6 {
